@@ -67,6 +67,13 @@ Theorem C02_rst_after_trailers_refuted :
 Proof. exact c02_rst_after_trailers_refuted. Qed.
 Print Assumptions C02_rst_after_trailers_refuted.
 
+(* Above loopy: http2Client.write (modelled by api_writes, compared with a real http2Client on
+   every run by op 30) never accepts a Write after an accepted one with Last - this is the
+   hypothesis no_data_after_end of the first theorem, established at the transport API. *)
+Theorem C02_client_write_rejects_after_last : forall l d, api_ok d (api_writes d l) = true.
+Proof. exact api_ok_model. Qed.
+Print Assumptions C02_client_write_rejects_after_last.
+
 Theorem C02_holds_on_every_model_trace : forall cfg ops, case_wf2 cfg ops = true ->
   exists obs, run cfg ops = Some obs /\ holds_C02 ops obs = true.
 Proof. exact c02_bridge. Qed.
